@@ -109,4 +109,5 @@ func vc16Executor(ns, quota int, structural int) {
 func VC16_Executor_Quick()           { vc16Executor(2, 1, 0) }
 func VC16_Executor_Thorough()        { vc16Executor(3, 1, 0) }
 func VC16_ExecutorAddLink_Thorough() { vc16Executor(2, 1, 1) }
+func VC16_ExecutorQuota2_Thorough()  { vc16Executor(2, 2, 0) }
 func VC16_ExecutorMating_Thorough()  { vc16Executor(2, 1, 2) }
